@@ -151,7 +151,13 @@ func (t *Tree) Get(topic string) []interface{} {
 	defer t.mutex.Unlock()
 
 	// get values
-	return t.get(topic, t.root)
+	values := t.get(topic, t.root)
+	if values == nil {
+		return nil
+	}
+
+	// return a copy as the node's slice is modified in place later on
+	return append([]interface{}{}, values...)
 }
 
 func (t *Tree) get(topic string, node *node) []interface{} {
